@@ -251,7 +251,11 @@ def run(run):
                 hs = [full[i] for i in sorted(rng.choice(len(full), size=max(1, len(full) // 4), replace=False))]
             items += [(j, h, preload) for h in hs]
     par.G['jobs'] = jobs
-    for res in par.pmap(_worker, items):
+    for item, res in zip(items, par.pmap(_worker, items)):
+        if isinstance(res, par.Crash):
+            fc, A, answers, K = jobs[item[0]]
+            res = ({'file': fc.label, 'preload': item[2], 'K': K, 'history': [[A[i - 1]['r'], A[i - 1]['op'], A[i - 1]['a']] for i in item[1]]},
+                   False, 0, f'worker process died ({res})')
         if merge(run, res):
             run.traces_validated += 1
     run.extra['depth'] = D
